@@ -13,6 +13,9 @@ rows = []
 for sid in ids:
     d = os.path.join("seeded", sid)
     meta = json.load(open(os.path.join(d, "meta.json")))
+    if meta.get("obsolete"):
+        print((sid, "obsolete"), flush=True)
+        continue
     pid = meta["property"]
     ev = f"evidence/{pid}.json"
     bak = f"/var/tmp/ev_{pid}.bak"
